@@ -15,6 +15,7 @@ OUTSIDE = ['names with non-ASCII bytes', 'thread maps larger than the enumerated
 EXPLORE_OPTS = {'max_paths': 40000, 'max_seconds': 900}
 
 N19 = 'abcdefghijklmnopqrs'
+RAW20 = 'launchd\x00\x00\x00\x00\x00ion_\x00\x00\x00\x00'       # a raw 20-byte command field: the name ends at the first NUL
 
 
 def setup(symbolic):
@@ -35,11 +36,11 @@ def bounds(tier):
 def structures(tier):
     sts = []
     if tier == 'quick':
-        namesets = [[], [''], ['launchd'], [N19], ['a', 'a'], ['', N19]]
+        namesets = [[], [''], ['launchd'], [N19], ['a', 'a'], ['', N19], [RAW20]]
         pads = [0, 1, 8]
         ms = [0, 1, 2]
     else:
-        namesets = [[], [''], ['x'], ['launchd'], [N19], ['a', 'a'], ['', N19], ['kernel_task', 'launchd'],
+        namesets = [[], [''], ['x'], ['launchd'], [N19], ['a', 'a'], ['', N19], [RAW20], ['kernel_task', 'launchd'],
                     ['a', 'b', 'a'], [N19, '', 'x']]
         pads = list(range(0, 17)) + [64, 4000]
         ms = [0, 1, 2, 3]
